@@ -56,6 +56,20 @@ def run(chk, scratch):
         esc = [s for s in scen if s["escapes"]]
         ok = [s for s in scen if not s["escapes"]]
         scen = rnd.sample(esc, 700) + rnd.sample(ok, 500)
+    # archives with chained symbolic-link entries (ZipLinks.tla): names lexically inside, real locations possibly not
+    rl = vlib.run_tlc(scratch, [SPEC], "ZipLinks", "ZipLinks.cfg", workers=1, timeout=300, fast=True)
+    vlib.tlc_must_pass(rl, "ZipLinks")
+    chk.add_tlc("ZipLinks: chains of 1..3 link entries x 6 targets, where the file would land if links were restored", rl)
+    rl2 = vlib.run_tlc(scratch, [SPEC], "ZipLinks", "ZipLinks_lexical.cfg", workers=1, timeout=300, fast=True)
+    vlib.tlc_must_pass(rl2, "ZipLinks_lexical")
+    chk.add_tlc("ZipLinks: lexical checks of each link alone are not enough (must violate)", rl2)
+    if rl2.violated != "LexicalChecksAreNotEnough":
+        raise vlib.Inconclusive("sensitivity self-test failed: ZipLinks_lexical.cfg reported %s" % rl2.violated)
+    links = rl.behaviours
+    chk.cov["link_chain_scenarios"] = len(links)
+    if not thorough:
+        links = [s for s in links if s["escapesIfRestored"]][:60] + rnd.sample(links, 30)
+    scen = scen + links
     chk.sample({"scenario": scen[0]})
     inp = os.path.join(scratch, "c02-scen.ndjson")
     vlib.write_ndjson(inp, scen)
